@@ -475,7 +475,18 @@ pub fn run_hx_prop(prop: &'static str, tier: &str) -> Outcome {
                         failures.push(report::hx_failure(cfg, &v2));
                     }
                 }
-                Ok(false) => machinery.push(format!("a {} finding did not reproduce when replayed from scratch: {}", v.kind, crate::model::hist_text(&v.history))),
+                Ok(false) => {
+                    // The explorer has no clock and no randomness, and the oracle is a pure function of the
+                    // history: an answer that contradicted the model during the exploration (where many graphs
+                    // live in one thread, at re-used addresses) and agrees with it when the same history is
+                    // replayed alone was given by the real code all the same - it depends on something outside
+                    // the graph's own history. That contradicts the property for this history (and C19).
+                    let mut v2 = v.clone();
+                    v2.detail = format!("{} - NOTE: this answer was given during the exploration, where many graphs live in one thread and addresses are re-used; when the history is replayed alone (also right after the calls of harness/src/dirty.rs) the answer is the right one. The explorer is deterministic and its oracle a function of the history alone, so the answer depends on something outside the graph's own history: state shared between objects through the thread, the process or an address. `./check replay` may therefore not reproduce it", v.detail);
+                    if !failures.iter().any(|f: &Failure| f.signature == format!("hx:{}", v.kind)) {
+                        failures.push(report::hx_failure(cfg, &v2));
+                    }
+                }
                 Err(e) => machinery.push(format!("replay failed: {e}")),
             }
         }
